@@ -85,6 +85,30 @@ type c05HandlerSpec struct {
 type c05State struct {
 	snaps   []c05Snap
 	outcome string
+	errv    *res.Error // the library error value used by the *-reserr outcomes
+}
+
+// c05ErrPool: handler-built errors of the library's error type, including ones
+// that reuse the predefined system codes with their own message and data.
+var c05ErrPool = []*res.Error{
+	errRes,
+	{Code: "system.notFound", Message: "User 42 does not exist", Data: map[string]interface{}{"userId": 42}},
+	{Code: "system.methodNotFound", Message: "No such method here", Data: []int{1, 2}},
+	{Code: "system.accessDenied", Message: "Need role admin", Data: "admin"},
+	{Code: "system.internalError", Message: "disk full", Data: map[string]interface{}{"free": 0}},
+	{Code: "system.invalidParams", Message: "name too long", Data: map[string]interface{}{"max": 8}},
+	{Code: "system.invalidQuery", Message: "bad limit"},
+	{Code: "system.timeout", Message: "backend timed out", Data: 30},
+	{Code: "system.notFound", Message: "Not found", Data: true},
+	{Code: "system.accessDenied", Message: "access denied"},
+	{Code: "a.b", Message: ""},
+}
+
+func (st *c05State) err() *res.Error {
+	if st.errv == nil {
+		return errRes
+	}
+	return st.errv
 }
 
 var c05Outcomes = []string{"marker", "marker", "marker", "error-reserr", "error-plain", "panic-reserr", "panic-err", "panic-str", "panic-int", "none", "error-std-notfound", "error-wrapped", "panic-wrapped", "panic-nil"}
@@ -104,13 +128,13 @@ func c05Handle(st *c05State, marker string, rq interface{}, reply func(r *res.Re
 	case "marker":
 		reply(r)
 	case "error-reserr":
-		r.Error(errRes)
+		r.Error(st.err())
 	case "error-plain":
 		r.Error(errPlain)
 	case "error-std-notfound":
 		r.Error(res.ErrNotFound)
 	case "panic-reserr":
-		panic(errRes)
+		panic(st.err())
 	case "panic-err":
 		panic(errPlain)
 	case "error-wrapped":
@@ -421,6 +445,7 @@ func c05Run(c *core.Ctx, b core.Batch) {
 		one := func(subject string, payload []byte, sent *c05Sent, malformed bool) bool {
 			st.snaps = st.snaps[:0]
 			st.outcome = c05Outcomes[r.Intn(len(c05Outcomes))]
+			st.errv = c05ErrPool[r.Intn(len(c05ErrPool))]
 			start := rg.C.Len()
 			inbox, done, delivered := rg.send(subject, payload)
 			if delivered == 0 {
@@ -507,7 +532,14 @@ func c05Run(c *core.Ctx, b core.Batch) {
 					c.Violation("C05/result-altered", fmt.Sprintf("%s: response %v does not carry the handler's result %q", subject, payloadStrs(resp), sn.Marker), desc)
 				}
 			case "error-reserr", "panic-reserr":
-				if got.Error == nil || got.Error.Code != errRes.Code || got.Error.Message != errRes.Message || !jsonEqual(got.Error.Data, []byte(`{"k":[1]}`)) {
+				we := st.err()
+				wd, _ := json.Marshal(we.Data)
+				if we.Data == nil {
+					wd = nil
+				}
+				desc["error_value"] = we
+				c.SetAdd("error_codes_returned", we.Code)
+				if got.Error == nil || got.Error.Code != we.Code || got.Error.Message != we.Message || (wd == nil) != (len(got.Error.Data) == 0) || wd != nil && !jsonEqual(got.Error.Data, wd) {
 					c.Violation("C05/error-not-verbatim:"+st.outcome, fmt.Sprintf("%s: *res.Error outcome %s answered %v, want the error verbatim", subject, st.outcome, payloadStrs(resp)), desc)
 				}
 			case "error-std-notfound":
